@@ -451,10 +451,203 @@ pub fn real_texts() -> Vec<(String, String)> {
     v
 }
 
+fn on(x: Option<f32>) -> Value {
+    x.map_or(Value::Null, num_json)
+}
+
+/// observation of `hulc::kyg::parse`
+fn observe_kyg(text: &str) -> Value {
+    match std::panic::catch_unwind(std::panic::AssertUnwindSafe(|| hulc::kyg::parse(text))) {
+        Err(_) => json!({"panic": true}),
+        Ok(Err(e)) => json!({"err": format!("{e:#}").chars().take(120).collect::<String>()}),
+        Ok(Ok(k)) => json!({"ok": {
+            "k": num_json(k.k),
+            "windows": k.windows.values().map(|w| json!({"name": w.name, "orientation": w.orientation, "a": num_json(w.a), "u": num_json(w.u), "ff": num_json(w.ff),
+                "azimuth_n": num_json(w.azimuth_n), "fshobst": num_json(w.fshobst),
+                "extra": if w.cons.is_some() { json!([on(w.ggln), on(w.unknown1), on(w.unknown2), on(w.infcoeff_100), w.cons]) } else { Value::Null }})).collect::<Vec<_>>(),
+            "walls": k.walls.values().map(|w| json!({"name": w.name, "a": num_json(w.a), "u": num_json(w.u), "btrx": num_json(w.btrx),
+                "extra": if w.cons.is_some() { json!([w.wtype, w.orientation, w.cons]) } else { Value::Null }})).collect::<Vec<_>>(),
+            "tbs": k.thermal_bridges.values().map(|t| json!({"name": t.name, "l": num_json(t.l), "psi": num_json(t.psi), "sisdim": t.sisdim})).collect::<Vec<_>>(),
+            "hfactors": k.hfactors.iter().map(|x| num_json(*x)).collect::<Vec<_>>(),
+        }}),
+    }
+}
+
+/// observation of `hulc::tbl::parse` (it reads a Latin-1 file: the text is written to a scratch file first)
+fn observe_tbl(text: &str, scratch: &std::path::Path) -> Value {
+    let bytes: Vec<u8> = text.chars().map(|c| if (c as u32) < 256 { c as u8 } else { b'?' }).collect();
+    if std::fs::write(scratch, bytes).is_err() {
+        return json!({"err": "scratch"});
+    }
+    match std::panic::catch_unwind(std::panic::AssertUnwindSafe(|| hulc::tbl::parse(scratch))) {
+        Err(_) => json!({"panic": true}),
+        Ok(Err(e)) => json!({"err": format!("{e:#}").chars().take(120).collect::<String>()}),
+        Ok(Ok(t)) => json!({"ok": {
+            "elements": t.elements.iter().map(|(k, e)| json!({"key": k, "name": e.name, "nums": [num_json(e.area), num_json(e.u), num_json(e.w_or_inf), num_json(e.g_winter),
+                num_json(e.g_summer), num_json(e.ang_north), num_json(e.tilt)], "type": format!("{:?}", e.type_), "id_surf": e.id_surf, "id_space": e.id_space})).collect::<Vec<_>>(),
+            "spaces": t.spaces.iter().map(|(k, sp)| json!({"key": k, "name": sp.name, "id_space": sp.id_space, "mult": sp.mult, "area": num_json(sp.area), "qint": num_json(sp.qint)})).collect::<Vec<_>>(),
+        }}),
+    }
+}
+
+fn rnd(rng: &mut Rng, lo: f64, hi: f64, dec: u32, comma: bool) -> String {
+    let x = rng.f(lo, hi, dec);
+    fmt_num(rng, x, comma)
+}
+
+fn pickf(rng: &mut Rng, xs: &[f32]) -> String {
+    let x = *rng.pick(xs);
+    fmt_num(rng, x, false)
+}
+
+fn fmt_num(rng: &mut Rng, x: f32, comma: bool) -> String {
+    let s = match rng.below(3) {
+        0 => format!("{:.2}", x),
+        1 => format!("{:.6}", x),
+        _ => format!("{}", x),
+    };
+    if comma { s.replace('.', ",") } else { s }
+}
+
+/// a random KyGananciasSolares.txt in the old (short) or new (long) column layout, with either decimal separator
+fn gen_kyg(rng: &mut Rng) -> String {
+    let new_layout = rng.chance(1, 2);
+    let comma_pt = rng.chance(2, 3);
+    let mut s = String::from("###;Datos para Factor de Pérdidas\n");
+    let nw = rng.range(1, 6);
+    let mut wins = vec![];
+    for i in 0..nw {
+        let wall = format!("P01_E01_PE{:03}", i + 1);
+        for j in 0..rng.range(0, 2) {
+            let name = format!("{}_V{}", wall, j + 1);
+            let o = *rng.pick(&["S ", "N ", "E ", "O ", "SO", "NE", "H "]);
+            let mut l = format!("Ventana;{};{};{};{};{}", name, rnd(rng, 0.5, 6.0, 2, false), rnd(rng, 0.8, 5.7, 2, false), o, rnd(rng, 0.0, 40.0, 2, false));
+            if new_layout {
+                l.push_str(&format!(";{};-1.00;1.00;{};Doble -- Mrpt", rnd(rng, 0.2, 0.9, 2, false), rnd(rng, 3.0, 50.0, 2, false)));
+            } else {
+                l.push_str(&format!(";{};-1.00;1.00", rnd(rng, 0.2, 0.9, 2, false)));
+            }
+            s.push_str(&l);
+            s.push('\n');
+            wins.push(name);
+        }
+        let mut l = format!("Muro;{};{};{};{}", wall, rnd(rng, 3.0, 90.0, 2, false), rnd(rng, 0.15, 3.0, 2, false), rnd(rng, 0.0, 1.0, 2, false));
+        if new_layout {
+            l.push_str(";Fachada;S ;Fachada por defecto D");
+        } else if rng.chance(1, 2) {
+            l.push_str(";Muro Exterior");
+        }
+        s.push_str(&l);
+        s.push('\n');
+    }
+    for n in ["UNION_CUBIERTA", "ESQUINA_CONVEXA_CERRAMIENTO", "HUECO_VENTANA"] {
+        if rng.chance(2, 3) {
+            let mut l = format!("PPTT;{};{};{}", rnd(rng, 0.0, 80.0, 2, comma_pt), rnd(rng, 0.01, 1.2, 3, comma_pt), n);
+            if new_layout {
+                l.push_str(";SDINT");
+            }
+            s.push_str(&l);
+            s.push('\n');
+        }
+    }
+    s.push_str(&format!("Coeficiente K = ;{}\n", rnd(rng, 0.2, 3.0, 3, comma_pt)));
+    s.push_str("###;Datos para Factor de Insolación\n");
+    for i in 0..9 {
+        s.push_str(&format!("{} ; {}\n", i, rnd(rng, 20.0, 250.0, 3, false)));
+    }
+    for w in &wins {
+        let htot = rng.f(1000.0, 90000.0, 2);
+        let h3 = htot * rng.f(0.1, 1.0, 3);
+        s.push_str(&format!("\"{}\"; {}; {}; {}; {}; {}; {}; {}\n", w, pickf(rng, &[0.0, 45.0, 90.0, 180.0, 270.0]), fmt_num(rng, 2.0, false),
+            fmt_num(rng, htot, false), fmt_num(rng, htot, false), fmt_num(rng, h3, false), fmt_num(rng, h3, false), fmt_num(rng, h3 * 0.9, false)));
+    }
+    s.push_str("###;Fin\n###\n### DOCUMENTACIÓN\n");
+    if rng.chance(1, 3) {
+        s = s.replace('\n', "\r\n");
+    }
+    s
+}
+
+fn gen_tbl(rng: &mut Rng) -> String {
+    let ne = rng.range(1, 12);
+    let ns = rng.range(1, 3);
+    let mut s = format!("Nombre\r\n A U p f fv angNorte tilt tipo codigo0 codigo1\r\n{} {}\r\n", ne, ns);
+    for i in 0..ne {
+        let t = *rng.pick(&["0", "1", "2", "-2", "-3", "-4", "-5"]);
+        s.push_str(&format!("\"P01_E01_PE{:03}\"\r\n {} {} {} {} {} {} {} {} {} {}\r\n", i + 1, rnd(rng, 1.0, 90.0, 2, false), rnd(rng, 0.2, 4.0, 2, false),
+            rnd(rng, 0.0, 250.0, 2, false), rnd(rng, 0.0, 0.9, 2, false), rnd(rng, 0.0, 0.9, 2, false), pickf(rng, &[0.0, 90.0, 180.0, 270.0]),
+            pickf(rng, &[0.0, 90.0, 180.0]), t, i, if rng.chance(1, 2) { -1 } else { 1 }));
+    }
+    for i in 0..ns {
+        s.push_str(&format!("\"P01_E{:02}\"\r\n {} {} {} {}\r\n", i + 1, i as i32 - 1, rng.range(1, 3), rnd(rng, 5.0, 200.0, 2, false), rnd(rng, 0.0, 10.0, 3, false)));
+    }
+    s
+}
+
+fn aux_files(name: &str) -> Vec<(String, String)> {
+    let mut v = vec![];
+    for d in crate::corpus::project_dirs() {
+        let p = d.join(name);
+        if let Ok(b) = std::fs::read(&p) {
+            // both files are Latin-1
+            let text: String = b.iter().map(|c| *c as char).collect();
+            v.push((format!("{}/{}", d.file_name().unwrap().to_string_lossy(), name), text));
+        }
+    }
+    v
+}
+
+fn aux_cases(cw: &mut CaseWriter, rng: &mut Rng, n: usize, out: &str) {
+    let scratch = std::path::Path::new(out).join("scratch.tbl");
+    let damage_line = |rng: &mut Rng, text: &str| -> Option<String> {
+        let lines: Vec<&str> = text.lines().collect();
+        if lines.is_empty() {
+            return None;
+        }
+        let li = rng.below(lines.len());
+        let kind = *rng.pick(&["delete", "duplicate", "swap-next", "num-to-text", "num-to-huge", "num-to-negative", "truncate-here"]);
+        crate::props::c19::damage(&lines, li, kind, text.len())
+    };
+    for (label, text) in aux_files("KyGananciasSolares.txt") {
+        cw.write(json!({"op": "kyg", "kind": "kyg-real", "label": label, "text": text, "impl": observe_kyg(&text)}));
+        for _ in 0..4 {
+            if let Some(t2) = damage_line(rng, &text) {
+                cw.write(json!({"op": "kyg", "kind": "kyg-damaged", "label": format!("{label}:damaged"), "text": t2, "impl": observe_kyg(&t2)}));
+            }
+        }
+    }
+    for (label, text) in aux_files("NewBDL_O.tbl") {
+        cw.write(json!({"op": "tbl", "kind": "tbl-real", "label": label, "text": text, "impl": observe_tbl(&text, &scratch)}));
+        for _ in 0..4 {
+            if let Some(t2) = damage_line(rng, &text) {
+                cw.write(json!({"op": "tbl", "kind": "tbl-damaged", "label": format!("{label}:damaged"), "text": t2, "impl": observe_tbl(&t2, &scratch)}));
+            }
+        }
+    }
+    for i in 0..n {
+        let t = gen_kyg(rng);
+        cw.write(json!({"op": "kyg", "kind": "kyg-generated", "label": format!("kyg{i}"), "text": t, "impl": observe_kyg(&t)}));
+        if i % 3 == 0 {
+            if let Some(t2) = damage_line(rng, &t) {
+                cw.write(json!({"op": "kyg", "kind": "kyg-damaged", "label": format!("kyg{i}:damaged"), "text": t2, "impl": observe_kyg(&t2)}));
+            }
+        }
+        let t = gen_tbl(rng);
+        cw.write(json!({"op": "tbl", "kind": "tbl-generated", "label": format!("tbl{i}"), "text": t, "impl": observe_tbl(&t, &scratch)}));
+        if i % 3 == 0 {
+            if let Some(t2) = damage_line(rng, &t) {
+                cw.write(json!({"op": "tbl", "kind": "tbl-damaged", "label": format!("tbl{i}:damaged"), "text": t2, "impl": observe_tbl(&t2, &scratch)}));
+            }
+        }
+    }
+    std::fs::remove_file(&scratch).ok();
+}
+
 pub fn run(args: &Args) -> i32 {
     let mut cw = CaseWriter::new(&args.out, "cases.jsonl");
     let mut rng = Rng::new(args.seed ^ 0xC18);
     let thorough = args.tier == "thorough";
+    aux_cases(&mut cw, &mut rng.fork(7), args.n / 4, &args.out);
     // 1. real files, as they are and re-printed
     let reals = real_texts();
     for (i, (label, text)) in reals.iter().enumerate() {
